@@ -31,8 +31,8 @@ type state struct {
 	pol     string
 	lb      *gnet.VerifLB
 	n       int
-	rrPrev  int  // previous round-robin pick (-1: none)
-	rrClean bool // no setctr since the previous pick
+	rrPrev  int    // previous round-robin pick (-1: none)
+	rrClean bool   // no setctr since the previous pick
 	rrExp   uint64 // the 64-bit counter value the harness expects (what it set, plus the picks since)
 	tally   []int
 	hashMap map[string]int
